@@ -111,6 +111,35 @@ package hcldec
 //@ pure
 //@ ensures typeOf(ret0) == typeOf(s.Value)
 
+// ---- wrappers and labels (unit U17e) ----
+// verif:func (*ValidateSpec).impliedType
+//@ requires s.Wrapped != nil
+//@ pure
+//@ ensures ret == implied(s.Wrapped)
+// (the validation function only inspects the value)
+// verif:func (ValidateSpec).Func.call
+//@ trusted
+//@ assigns nothing
+// verif:func (*ValidateSpec).decode
+//@ nosafety
+//@ requires s.Wrapped != nil
+//@ ensures conforms: conformsTy(typeOf(ret0), woad(implied(old(s.Wrapped))))
+// verif:func (*RefineValueSpec).impliedType
+//@ requires s.Wrapped != nil
+//@ pure
+//@ ensures ret == implied(s.Wrapped)
+// verif:func (*RefineValueSpec).decode
+//@ nosafety
+//@ requires s.Wrapped != nil
+//@ ensures conforms: conformsTy(typeOf(ret0), woad(implied(s.Wrapped)))
+// verif:func (*BlockLabelSpec).impliedType
+//@ pure
+//@ ensures ret == cty.String
+// verif:func (*BlockLabelSpec).decode
+//@ nosafety
+//@ maypanic
+//@ ensures typeOf(ret0) == cty.String
+
 // ---- block lists and sets (unit U17b) ----
 // verif:func (*BlockListSpec).impliedType
 //@ requires s.Nested != nil
